@@ -798,7 +798,7 @@ func c14Matrix(r *rand.Rand, proto string) []*c14Case {
 	// bodiless 204 / 304 carrying a Content-Encoding all the same
 	for ci, cfg := range c14Cfgs {
 		for _, enc := range []c14Enc{c14Encs[0], c14Encs[2], c14Encs[6], c14Encs[8]} {
-			for _, st := range []int{206, 204, 304} {
+			for _, st := range []int{206, 2060, 204, 304} {
 				p := verifc14.Payload(r, 1+r.Intn(3))
 				wire, alg := c14Encode(enc, p)
 				c := &c14Case{
@@ -806,7 +806,9 @@ func c14Matrix(r *rand.Rand, proto string) []*c14Case {
 					method: "GET", ce: enc.ce, ctype: "application/octet-stream", payload: p, wire: wire,
 					stream: "valid", alg: alg, framing: "cl", sizes: verifc14.Sizes(r),
 				}
-				if st == 206 {
+				if st == 2060 {
+					c.status = 206 // a 206 the request did not ask for: the status must not matter to the decision
+				} else if st == 206 {
 					c.partial, c.rng = true, "bytes=0-"
 					if r.Intn(2) == 0 {
 						c.ifRange = "\"etag-1\""
